@@ -31,6 +31,9 @@ Base == [locus |-> "LOC1", molecule |-> "DNA", topology |-> "linear", division |
          references |-> <<>>, comments |-> <<>>, extra |-> <<>>, region |-> <<>>, feats |-> <<SrcFeat>>, len |-> 10, alpha |-> "acgt"]
 
 Long == "word1 word2 word3 word4 word5 word6 word7 word8 word9 word10 word11 word12 word13 word14 word15"
+\* words of exactly 58 / 57 letters: the width of a qualifier line is 79 - 21 = 58 columns
+W58 == "abcdefghijklmnopqrstuvwxyzabcdefghijklmnopqrstuvwxyzabcdef"
+W57 == "abcdefghijklmnopqrstuvwxyzabcdefghijklmnopqrstuvwxyzabcde"
 Alts == <<
   <<"locus", "A">>, <<"locus", "A_LONG_LOCUS_NAME_23CH">>,
   <<"molecule", "RNA">>, <<"molecule", "ss-DNA">>, <<"molecule", "AA">>,
@@ -42,6 +45,10 @@ Alts == <<
   <<"version", "">>,
   <<"dblink", << <<"BioProject", "PRJNA1">> >>>>, <<"dblink", << <<"BioProject", "PRJNA1">>, <<"KEGG BRITE", "NC_1">> >>>>,
   <<"keywords", <<"RefSeq">>>>, <<"keywords", <<"a", "b c", "d">>>>, <<"keywords", <<Long, "x">>>>,
+  \* list elements that themselves end in (or contain) the list punctuation
+  <<"keywords", <<"RefSeq", "Bacillus sp.">>>>, <<"keywords", <<"sp.", "x">>>>, <<"keywords", <<"a.b", "c">>>>,
+  <<"source", [species |-> "s", name |-> "n", taxon |-> <<"Bacteria", "incertae sedis.">>]>>,
+  <<"source", [species |-> "s", name |-> "n", taxon |-> <<"unclassified.", "x">>]>>,
   <<"source", [species |-> "Escherichia coli K-12", name |-> "Escherichia coli", taxon |-> <<"Bacteria", "Proteobacteria">>]>>,
   <<"source", [species |-> "s", name |-> "n", taxon |-> <<>>]>>,
   <<"source", [species |-> Long, name |-> "n", taxon |-> <<"a", "z">>]>>,
@@ -55,6 +62,9 @@ Alts == <<
   <<"definition", "a definition\n\nwith a blank line">>, <<"extra", << <<"NOTE", "one\n\nthree">> >>>>,
   <<"references", <<Ref(1, "(bases 1 to 10)", "A,B.", "", "T", "J", "", "remark para one\n\nremark para two")>>>>, <<"comments", <<"first\nsecond line", "another comment">>>>,
   <<"extra", << <<"FOO", "bar">> >>>>, <<"extra", << <<"PRIMARY", "line one\nline two">>, <<"BAZ", "">> >>>>,
+  <<"comments", <<"line one\n  an indented second line\nthird">>>>, <<"comments", <<"ends with blanks  ">>>>,
+  <<"dblink", << <<"BioProject", "PRJNA1: with colon">> >>>>, <<"accession", "AC1-AC9 AC12">>,
+  <<"references", <<Ref(1, "(bases 1 to 10)", "A,B., C,D. and E,F.", "", "Title: with a colon; and a semicolon", "J. Mol. Biol. 1 (1), 1-2 (2000)", "123", "")>>>>,
   <<"region", <<2, 8>>>>,
   <<"len", 0>>, <<"len", 1>>, <<"len", 9>>, <<"len", 11>>, <<"len", 59>>, <<"len", 60>>, <<"len", 61>>, <<"len", 119>>, <<"len", 120>>, <<"len", 121>>,
   <<"alpha", "print">>,
@@ -67,6 +77,12 @@ Alts == <<
                Feat("misc_feature", Am(2, 6), << <<"note", "">> >>), Feat("gene", Jn(<<Cp(Rg(6, 8, FALSE, FALSE)), Cp(Rg(1, 3, FALSE, FALSE))>>), <<>>)>>>>,
   <<"feats", <<SrcFeat, Feat("gene", Rg(0, 10, TRUE, TRUE), << <<"note", Long \o " " \o Long>>, <<"$a", "value of an unknown name">>, <<"$b", "">> >>)>>>>,
   <<"feats", <<SrcFeat, Feat("gene", Rg(2, 4, FALSE, FALSE), << <<"note", "line one\nline two">>, <<"transl_table", "11">> >>)>>>>,
+  \* a location longer than one line (wrapped at a comma), a 15-letter key, values around the wrap width
+  <<"feats", <<SrcFeat, Feat("CDS", Jn(<<Rg(0, 1, TRUE, FALSE), Rg(1, 2, FALSE, FALSE), Pt(2), Rg(3, 5, FALSE, FALSE), Pt(5), Rg(6, 7, FALSE, FALSE), Pt(7), Pt(8), Rg(8, 9, FALSE, FALSE),
+                                          Pt(9), Rg(0, 2, FALSE, FALSE), Rg(2, 4, FALSE, FALSE), Rg(4, 6, FALSE, FALSE), Rg(6, 8, FALSE, FALSE), Rg(8, 10, FALSE, TRUE)>>), << <<"gene", "long">> >>),
+               Feat("regulatory_regi", Cp(Od(<<Rg(0, 2, FALSE, FALSE), Rg(3, 5, FALSE, FALSE), Rg(6, 8, FALSE, FALSE), Rg(0, 3, FALSE, FALSE), Rg(4, 6, FALSE, FALSE), Rg(7, 9, FALSE, FALSE),
+                                                  Rg(1, 3, FALSE, FALSE), Rg(5, 7, FALSE, FALSE), Rg(8, 10, FALSE, FALSE), Rg(2, 5, FALSE, FALSE), Rg(6, 9, FALSE, FALSE)>>)), <<>>)>>>>,
+  <<"feats", <<SrcFeat, Feat("gene", Rg(2, 4, FALSE, FALSE), << <<"note", W58>>, <<"gene", W57 \o " x">>, <<"product", W58 \o "y">>, <<"function", "ends with blank ">> >>)>>>>,
   <<"feats", <<SrcFeat, Feat("gene", Rg(2, 4, FALSE, FALSE), << <<"note", "has a \"quoted\" word">>, <<"gene", "after">> >>)>>>>,
   <<"feats", <<SrcFeat, Feat("gene", Rg(2, 4, FALSE, FALSE), << <<"note", "ends with a backslash\\">>, <<"gene", "after">> >>)>>>>,
   <<"feats", <<SrcFeat, Feat("gene", Rg(2, 4, FALSE, FALSE), << <<"note", "/looks=like a qualifier">>, <<"number", "1a">> >>)>>>>
